@@ -31,6 +31,20 @@ type DocSpec struct {
 	Extra    string              // extra query parameters (sort, page, filter), already escaped, each starting with &
 }
 
+// MainType is the type of the document's primary data (nil for a null document).
+func (d *DocSpec) MainType() *TypeSpec {
+	switch {
+	case d.ColType != nil:
+		return d.ColType
+	case len(d.Primary) > 0:
+		return d.Primary[0].Type
+	case len(d.Idents) > 0 && d.Schema != nil:
+		return d.Schema.Type(d.Idents[0].Type)
+	}
+
+	return nil
+}
+
 // DocKinds lists the primary-data kinds.
 var DocKinds = []string{"nil", "resource", "softcollection", "resources", "wrappercollection", "identifier", "identifiers"}
 
